@@ -284,6 +284,42 @@ class ProjectedGradientDescent(MinimizationAlgorithm):
         else:
             self._func_proj = func_proj.proj_to_self()
 
+    def _calc_metric_of_variables(self) -> np.ndarray:
+        """returns J^T J for J = d(stacked vector)/d(variables) of the estimation object.
+
+        The constraint projection is the nearest point in the metric of the stacked vector.
+        When the variables are not an isometric image of it (POVM with three or more outcomes
+        or MProcess with ``on_para_eq_constraint=True``: the implied part depends on the
+        variables), the gradient has to be expressed in this metric, otherwise
+        ``func_proj(x - gradient / mu) - x`` is not a descent direction.
+
+        Returns
+        -------
+        np.ndarray
+            the metric, or None if it is not available (projection given by the caller).
+        """
+        if self._qt is None or self._is_func_proj_given:
+            return None
+        setting_info = self._qt.generate_empty_estimation_obj_with_setting_info()
+        c_sys = setting_info.composite_system
+        on_para_eq_constraint = setting_info.on_para_eq_constraint
+        num_var = self._qt.num_variables
+        base = setting_info.convert_var_to_stacked_vector(
+            c_sys, np.zeros(num_var), on_para_eq_constraint
+        )
+        columns = []
+        for index in range(num_var):
+            unit = np.zeros(num_var)
+            unit[index] = 1.0
+            columns.append(
+                setting_info.convert_var_to_stacked_vector(
+                    c_sys, unit, on_para_eq_constraint
+                )
+                - base
+            )
+        jacobian = np.array(columns).T
+        return jacobian.T @ jacobian
+
     @abstractmethod
     def is_loss_sufficient(self) -> bool:
         """returns whether the loss is sufficient.
